@@ -41,6 +41,8 @@ fn build_section(s: &Section, seed: u8, block_version: u32) -> AuxPow {
         0 => Tx { version: 1, segwit: false, inputs: vec![TxIn::coinbase(vec![3, 1, 2, 3, 0xfa, 0xbe, b'm', b'm'])], outputs: vec![TxOut { value: 25, script: script::p2pkh(&script::h20(seed)) }], locktime: 0, wide: 0 },
         1 => Tx { version: 2, segwit: false, inputs: vec![TxIn::coinbase(vec![0x51; 100])], outputs: vec![TxOut { value: 25, script: vec![0x51; 0xfd] }, TxOut { value: 0, script: script::op_return(b"aux") }], locktime: 7, wide: 0 },
         3 => Tx { version: 1, segwit: false, inputs: vec![TxIn::coinbase(vec![0x51; 70_000])], outputs: (0..300).map(|k| TxOut { value: k, script: vec![0x51; 40 + (k as usize % 7)] }).collect(), locktime: 1, wide: 0 },
+        // alignment sweep: the parent coinbase scriptSig length is carried in `chain_branch` (the branch itself stays empty)
+        5 => Tx { version: 1, segwit: false, inputs: vec![TxIn::coinbase(vec![0x51; s.chain_branch])], outputs: vec![TxOut { value: 25, script: script::p2pkh(&script::h20(seed)) }], locktime: 0, wide: 0 },
         4 => Tx { version: 1, segwit: false, inputs: vec![TxIn::coinbase(vec![0x51; 17_000_000])], outputs: (0..70_000).map(|k| TxOut { value: k, script: vec![0x51; 25] }).collect(), locktime: 1, wide: 0 },
         _ => {
             let mut i = TxIn::coinbase(vec![3, 9, 9, 9]);
@@ -53,7 +55,7 @@ fn build_section(s: &Section, seed: u8, block_version: u32) -> AuxPow {
         parent_hash: hash_n(seed, 999),
         coinbase_branch: (0..s.cb_branch).map(|i| hash_n(seed, i)).collect(),
         coinbase_mask: s.mask,
-        chain_branch: (0..s.chain_branch).map(|i| hash_n(seed.wrapping_add(40), i)).collect(),
+        chain_branch: (0..if s.parent_cb == 5 { 0 } else { s.chain_branch }).map(|i| hash_n(seed.wrapping_add(40), i)).collect(),
         chain_mask: s.mask.rotate_left(3),
         parent_header: Header { version: match s.parent_version { 0 => 0x20000000, 1 => block_version, _ => 1 }, prev: hash_n(seed, 500), merkle: hash_n(seed, 501), time: 1_500_000_000, bits: 0x1b00ffff, nonce: 0xdeadbeef },
     }
@@ -95,6 +97,16 @@ pub fn run() -> Report {
         // a section of more than 20 MB in total (beyond 2^24 bytes and any plausible "no block is that large" budget): a 17 MB
         // parent coinbase scriptSig, 70 000 outputs, branches of 70 000 and 66 000 hashes (counts in the 0xfe CompactSize form)
         cases.push(Case { coin: cn, versions: vec![thr, thr + 1], section: Section { parent_cb: 4, cb_branch: 70_000, chain_branch: 66_000, mask: 9, parent_version: 0 }, label: "section-beyond-20MB".into() });
+        // alignment: the 80-byte parent header (and the fields around it) shifted byte by byte across the 32 KiB and 64 KiB marks
+        // counted from the block's size field - wherever a reader refills a buffer, a field may straddle the refill
+        for mark in [32_768usize, 65_536] {
+            for shift in 0..130usize {
+                // size(4) + header(80) + parent coinbase (4+1+36+3+len+4 +1+8+1+25 +4) + parent hash(32) + branch(1 + 32 + 4) + branch(1 + 4) -> parent header
+                let fixed = 4 + 80 + (4 + 1 + 36 + 3 + 4 + 1 + 8 + 1 + 25 + 4) + 32 + (1 + 32 + 4) + (1 + 4);
+                let len = mark + 20 - fixed - shift;
+                cases.push(Case { coin: cn, versions: vec![thr, thr + 1], section: Section { parent_cb: 5, cb_branch: 1, chain_branch: len, mask: 3, parent_version: 0 }, label: "alignment-sweep".into() });
+            }
+        }
         // long-branch sweeps (CompactSize boundary at 0xfd)
         let longs: Vec<usize> = if thorough { vec![5, 11, 32, 33, 0xfc, 0xfd, 0xfe, 1000] } else { vec![11, 33, 0xfd] };
         for &n in &longs {
@@ -106,7 +118,7 @@ pub fn run() -> Report {
     for c in COINS.iter().filter(|c| c.auxpow_from.is_none()) {
         cases.push(Case { coin: c.name, versions: vec![1, 0x10100, 0x10101, 0x10102, 0x620101, 0x620102, 0x620103, 0x7fff_ffff, 0x8000_0000, 0xffff_fffe, 0xffff_ffff], section: default_sec.clone(), label: "negative-control".into() });
     }
-    rep.rule = "namecoin/dogecoin: all 27 orders of below/at/above-threshold versions in a 3-block chain; full product parent-coinbase form (legacy, legacy 0xfd-script, segwit) x coinbase-branch {0,1,2} x chain-branch {0,1,2} x masks {0,1,0xffffffff} x parent-header version {0x20000000, the block's own version, 1}; long-branch sweeps across the 0xfd CompactSize boundary; six other coins with 11 versions around both thresholds and up to 0xffffffff (never a section); --verify on; non-trivial = distinct case with >= 1 block carrying a section, or a negative control".into();
+    rep.rule = "namecoin/dogecoin: all 27 orders of below/at/above-threshold versions in a 3-block chain; full product parent-coinbase form (legacy, legacy 0xfd-script, segwit) x coinbase-branch {0,1,2} x chain-branch {0,1,2} x masks {0,1,0xffffffff} x parent-header version {0x20000000, the block's own version, 1}; long-branch sweeps across the 0xfd CompactSize boundary; the parent header shifted byte by byte (130 positions) across the 32 KiB and 64 KiB marks of the block; six other coins with 11 versions around both thresholds and up to 0xffffffff (never a section); --verify on; non-trivial = distinct case with >= 1 block carrying a section, or a negative control".into();
     rep.bound = json!({"cases": cases.len(), "max_branch": if thorough { 1000 } else { 0xfd }});
     let root = refmodel::world::scratch_root();
     let parts = par_fold(
